@@ -104,7 +104,7 @@ fn compile_native_asset_for_output(
     ir: &tir::AssetExpr,
 ) -> Result<primitives::Multiasset<primitives::PositiveCoin>, Error> {
     let policy = coercion::expr_into_bytes(&ir.policy)?;
-    let policy = primitives::Hash::from(policy.as_slice());
+    let policy = coercion::bytes_into_hash::<28>(policy.as_slice())?;
     let asset_name = coercion::expr_into_bytes(&ir.asset_name)?;
     let amount = coercion::expr_into_number(&ir.amount)?;
     let amount: u64 = quantity_into(amount, "native asset amount")?;
@@ -121,7 +121,7 @@ fn compile_native_asset_for_mint(
     is_burn: bool,
 ) -> Result<primitives::Multiasset<primitives::NonZeroInt>, Error> {
     let policy = coercion::expr_into_bytes(&ir.policy)?;
-    let policy = primitives::Hash::from(policy.as_slice());
+    let policy = coercion::bytes_into_hash::<28>(policy.as_slice())?;
     let asset_name = coercion::expr_into_bytes(&ir.asset_name)?;
     let amount = coercion::expr_into_number(&ir.amount)?;
 
@@ -309,11 +309,13 @@ fn compile_inputs(tx: &tir::Tx) -> Result<Vec<primitives::TransactionInput>, Err
         .iter()
         .flat_map(|x| coercion::expr_into_utxo_refs(&x.utxos))
         .flatten()
-        .map(|x| primitives::TransactionInput {
-            transaction_id: x.txid.as_slice().into(),
-            index: x.index as u64,
+        .map(|x| {
+            Ok(primitives::TransactionInput {
+                transaction_id: coercion::bytes_into_hash::<32>(x.txid.as_slice())?,
+                index: x.index as u64,
+            })
         })
-        .collect();
+        .collect::<Result<Vec<_>, Error>>()?;
 
     Ok(refs)
 }
@@ -457,7 +459,7 @@ fn compile_vote_delegation_certificate(
 ) -> Result<primitives::Certificate, Error> {
     let stake = coercion::expr_into_stake_credential(&x.data["stake"], network)?;
     let drep = coercion::expr_into_bytes(&x.data["drep"])?;
-    let drep = primitives::DRep::Key(drep.as_slice().into());
+    let drep = primitives::DRep::Key(coercion::bytes_into_hash::<28>(drep.as_slice())?);
 
     Ok(primitives::Certificate::VoteDeleg(stake, drep))
 }
@@ -481,27 +483,30 @@ fn compile_reference_inputs(tx: &tir::Tx) -> Result<Vec<primitives::TransactionI
         .iter()
         .flat_map(coercion::expr_into_utxo_refs)
         .flatten()
-        .map(|x| primitives::TransactionInput {
-            transaction_id: x.txid.as_slice().into(),
-            index: x.index as u64,
+        .map(|x| {
+            Ok(primitives::TransactionInput {
+                transaction_id: coercion::bytes_into_hash::<32>(x.txid.as_slice())?,
+                index: x.index as u64,
+            })
         })
-        .collect();
+        .collect::<Result<Vec<_>, Error>>()?;
 
     Ok(refs)
 }
 
 fn compile_collateral(tx: &tir::Tx) -> Result<Vec<TransactionInput>, Error> {
-    Ok(tx
-        .collateral
+    tx.collateral
         .iter()
         .filter_map(|collateral| collateral.utxos.as_option())
         .flat_map(coercion::expr_into_utxo_refs)
         .flatten()
-        .map(|x| primitives::TransactionInput {
-            transaction_id: x.txid.as_slice().into(),
-            index: x.index as u64,
+        .map(|x| {
+            Ok(primitives::TransactionInput {
+                transaction_id: coercion::bytes_into_hash::<32>(x.txid.as_slice())?,
+                index: x.index as u64,
+            })
         })
-        .collect())
+        .collect()
 }
 
 fn compile_required_signers(tx: &tir::Tx) -> Result<Option<primitives::RequiredSigners>, Error> {
@@ -722,7 +727,7 @@ fn compile_single_mint_redeemer(
 
     for asset in assets.iter() {
         let policy = coercion::expr_into_bytes(&asset.policy)?;
-        policies.insert(primitives::ScriptHash::from(policy.as_slice()));
+        policies.insert(coercion::bytes_into_hash::<28>(policy.as_slice())?);
     }
 
     let mut out = vec![];
